@@ -1176,7 +1176,12 @@ def _str_replace(I, info, args):
     b = as_str(I, args[2])
     if s.concrete() and a.concrete() and b.concrete():
         return StrV(s.s.replace(a.s, b.s))
-    raise Unsupported('symbolic str::replace (use the dedicated print_js harness)')
+    # str::replace replaces every non-overlapping match, left to right = SMT-LIB str.replace_all (decided by cvc5; z3
+    # answers `unknown` on this operator, so scenarios that reach this must discharge their queries with cvc5)
+    ctx = z3.main_ctx()
+    t = z3.SeqRef(z3.Z3_mk_seq_replace_all(ctx.ref(), s.z().as_ast(), a.z().as_ast(), b.z().as_ast()), ctx)
+    I.ctx.notes['uses_replace_all'] = True
+    return StrV(t)
 
 
 @path(('fmt', 'format'), ('format',))
@@ -2125,3 +2130,15 @@ def _from_utf8(I, info, args):
     if isinstance(v, StrV):
         return ok(v)
     raise Unsupported('String::from_utf8 of %r' % (v,))
+
+
+B64 = z3.Function('base64_standard', z3.StringSort(), z3.StringSort())
+
+
+@trait('Engine', 'encode')
+def _b64_encode(I, info, args):
+    s = as_str(I, args[1])
+    if s.concrete():
+        import base64
+        return StrV(base64.b64encode(s.s.encode('utf8')).decode('ascii'))
+    return StrV(B64(s.z()))
